@@ -21,6 +21,7 @@ RLIMIT = int(os.environ.get("VERIF_RLIMIT", "40"))
 VERIF_MSGS = [
     (re.compile(r"^postcondition not satisfied"), "post"),
     (re.compile(r"^precondition not satisfied"), "pre"),
+    (re.compile(r"^precondition not met"), "pre"),  # verus wording for slice/array `s[i]` index obligations
     (re.compile(r"^possible arithmetic underflow/overflow"), "overflow"),
     (re.compile(r"^possible division by zero"), "divzero"),
     (re.compile(r"^possible bit shift underflow/overflow"), "shift"),
@@ -208,7 +209,9 @@ def run_unit(unit, threads=4, extra_args=None, rlimit=None):
                     t = s.get("text") or []
                     ctext = t[0]["text"][t[0]["highlight_start"] - 1 : t[0]["highlight_end"] - 1] if t else ""
                     callee = f"std[{norm(ctext, 60)}]"
-            ob["kind"] = "pre-call" if callee and not callee.startswith("std[") else "pre-implicit"
+            if callee is None:
+                callee = "index-in-bounds" if "index" in msg else "builtin"
+            ob["kind"] = "pre-call" if not (callee.startswith("std[") or callee in ("index-in-bounds", "builtin")) else "pre-implicit"
             ob["detail"] = f"{callee} @ {norm(ptext, 70)}"
         else:
             ob["fn"] = pseg.get("fn") or enclosing_fn(gen, ps["byte_start"])
